@@ -1,7 +1,8 @@
 """Write seeded/<id>/meta.json from the patch, the confirmation logs and the sweep results."""
 import json, os, re, glob
 ROOT = '/verif/seeded'
-INITIAL_MISS = {'C04-9': 'the commit-and-notify critical section was proved under C02 only and did not treat the rt_updates observable as a publication; C04 (report order = commit order) did not re-check it',
+INITIAL_MISS = {'C19-9': 'clients created by the provider / consumer factories were proved to carry the TLS context, but nothing stated that the factories are the only way a connection is opened (a direct urllib.request.urlopen in the WSDL reader bypassed them); the bounded TLS run only meets WSDL locations on the hosted endpoint',
+                'C04-9': 'the commit-and-notify critical section was proved under C02 only and did not treat the rt_updates observable as a publication; C04 (report order = commit order) did not re-check it',
                 'C05-9': 'time zones of DateOfBirth were sampled (whole hours, +-45 min), not enumerated; offsets between -00:59 and -00:01 were never written',
                 'C10-9': 'that the stamped new_mdib_version is the version the commit creates was trusted from C02 (transaction created inside the locks, commit sets exactly new_mdib_version) and not re-checked by the C10 check',
                 'C03-8': 'no contract stated the frame "API methods of a transaction body only queue" (a table mutation inside write_entity was an unknown call the opaque-callee rule accepted) and no bounded history deleted a context state through the entity interface before aborting',
